@@ -668,3 +668,40 @@ func contentFrom(v, src ssa.Value) bool {
 	}
 	return rec(v, 0)
 }
+
+// valueIsField: v is a load of Owner.Field, or a parameter of an unexported helper that every static
+// call site fills with such a load (a field handed to a helper that works on it).
+func valueIsField(v ssa.Value, name string) bool {
+	var rec func(v ssa.Value, d int) bool
+	rec = func(v ssa.Value, d int) bool {
+		v = stripValue(v)
+		if loadOfField(v, name) {
+			return true
+		}
+		p, ok := v.(*ssa.Parameter)
+		if !ok || d > 2 {
+			return false
+		}
+		g := p.Parent()
+		if g == nil || g.Object() == nil || g.Object().Exported() {
+			return false
+		}
+		idx := -1
+		for i, q := range g.Params {
+			if q == p {
+				idx = i
+			}
+		}
+		calls := staticCallersOf(g)
+		if idx < 0 || len(calls) == 0 {
+			return false
+		}
+		for _, c := range calls {
+			if idx >= len(c.Call.Args) || !rec(c.Call.Args[idx], d+1) {
+				return false
+			}
+		}
+		return true
+	}
+	return rec(v, 0)
+}
